@@ -159,6 +159,135 @@ def cost_volume(method='sad', ws=3, H=3, W=6, dmin=-1, dmax=1, masks=True, grids
                       assumptions=['C02: integer-valued radiometry (sums stay exact in float32)', 'C02: subpix 1; masks take values 0 (valid), 1 (nodata), 2..3 (invalid)'])
 
 
+def subpix_volume(method='sad', ws=3, H=3, W=5, dmin=-1, dmax=1, subpix=2, cap=120, block=()):
+    """C02 at sub-pixel precision: cost at disparity k + i/subpix == measure against the right image linearly interpolated between
+    columns (no masks; radiometry integers, so that every interpolated sample and every sum is exact in float32)"""
+    import xarray as xr
+    from fractions import Fraction
+    from vf import symnp as S, instr
+    from vf.explore import EX, explore
+    from vf.hutil import Collector
+    from vf.harness import mc
+    import pandora.matching_cost.matching_cost as MC, pandora.matching_cost.sad_ssd as SS_, pandora.matching_cost.census as CE, pandora.img_tools as IT
+    mc.install_stubs(S)
+    col = Collector(cap_s=cap, block=list(block))
+    info = {}
+    S.MODE['exact'] = True
+    ds = [Fraction(dmin) + Fraction(i, subpix) for i in range((dmax - dmin) * subpix + 1)]
+    hh = ws // 2
+
+    def h():
+        shapes = {}
+        vmax = 31 if method == 'ssd' else 255
+        L, li, _ = mc.make_image(xr, S, EX, 'l', H, W, shapes=shapes, vmax=vmax)
+        R, ri, _ = mc.make_image(xr, S, EX, 'r', H, W, shapes=shapes, vmax=vmax)
+        mc.add_disparity(xr, S, L, H, W, dmin, dmax)
+        col.shapes = shapes
+        ex = {'subpix_volume': True, 'method': method, 'ws': ws, 'H': H, 'W': W, 'dmin': dmin, 'dmax': dmax, 'subpix': subpix}
+        try:
+            out = mc.run_chain(S, L, R, method, ws, subpix=subpix, upto='masked')
+        except S.Unsupported:
+            raise
+        except Exception as e:      # noqa
+            col.path_exception(e, label='p%d' % len(EX.trace), extra=ex)
+            return
+        cv = out['cv']; o = cv["cost_volume"].data
+        props = [("cost-volume-shape-and-disparities", z3.BoolVal(tuple(o.shape) == (H, W, len(ds)) and [Fraction(float(d)) for d in cv.coords["disp"].data] == ds))]
+        lv = lambda r, c: li._a[r, c].t.val
+
+        def rv(r, x):        # right image at the (possibly fractional) column x: linear interpolation between the two neighbours
+            fl = x.numerator // x.denominator; f = x - fl
+            if f == 0:
+                return ri._a[r, fl].t.val
+            return (1 - z3.RealVal(str(f))) * ri._a[r, fl].t.val + z3.RealVal(str(f)) * ri._a[r, fl + 1].t.val
+        ncomp = 0
+        if tuple(o.shape) == (H, W, len(ds)):
+            for r in range(H):
+                for c in range(W):
+                    for k, d in enumerate(ds):
+                        c2 = c + d
+                        lo_ = c2 - hh; hi_ = c2 + hh
+                        hi_need = hi_ if hi_.denominator == 1 else Fraction(hi_.numerator // hi_.denominator + 1)
+                        g = not (r - hh < 0 or r + hh >= H or c - hh < 0 or c + hh >= W or lo_ < 0 or hi_need > W - 1)
+                        e = S.xlift(o._a[r, c, k])
+                        if not g:
+                            props.append(("nan-where-a-window-leaves-an-image[%d,%d,%s]" % (r, c, d), e.tag == 1)); continue
+                        ncomp += 1
+                        win = [(dr, dc) for dr in range(-hh, hh + 1) for dc in range(-hh, hh + 1)]
+                        if method == 'sad':
+                            v = z3.Sum([z3.If(lv(r + dr, c + dc) - rv(r + dr, c2 + dc) < 0, rv(r + dr, c2 + dc) - lv(r + dr, c + dc), lv(r + dr, c + dc) - rv(r + dr, c2 + dc)) for dr, dc in win])
+                        elif method == 'ssd':
+                            v = z3.Sum([(lv(r + dr, c + dc) - rv(r + dr, c2 + dc)) * (lv(r + dr, c + dc) - rv(r + dr, c2 + dc)) for dr, dc in win])
+                        else:
+                            a = [lv(r + dr, c + dc) > lv(r, c) for dr, dc in win]; b = [rv(r + dr, c2 + dc) > rv(r, c2) for dr, dc in win]
+                            v = z3.Sum([z3.If(x_ != y_, z3.RealVal(1), z3.RealVal(0)) for x_, y_ in zip(a, b)])
+                        props.append(("subpixel-cost-is-the-measure-on-the-linearly-interpolated-right-image[%d,%d,%s]" % (r, c, d), z3.And(e.tag == 0, e.val == v)))
+        col.check_path(props, label='p%d' % len(EX.trace), extra=ex, witnesses=[("a-computable-cost-exists", z3.BoolVal(ncomp > 0))], group=(method != 'ssd'))
+        info['fn'] = instr.fn_hash(IT.shift_right_img, MC.AbstractMatchingCost.allocate_cost_volume, MC.AbstractMatchingCost.cv_masked, MC.AbstractMatchingCost.point_interval,
+                                   SS_.SadSsd.compute_cost_volume, SS_.SadSsd.pixel_wise_aggregation, CE.Census.compute_cost_volume, IT.census_transform)
+    res, stats = explore(h, max_paths=64)
+    return col.result(stats, functions=info.get('fn', {}),
+                      bounds={'measure': method, 'window': ws, 'image': [H, W], 'interval': [dmin, dmax], 'subpix': subpix, 'masks': 'none',
+                              'radiometry': 'integers (exact domain)'},
+                      stubs=['scipy.ndimage.zoom(order=1) = the linear map read off the real zoom applied to unit vectors (weights multiples of 1/64)'],
+                      assumptions=['C02 sub-pixel: no masks, subpix 2 or 4 (interpolation weights exact in float32)'])
+
+
+def replay_subpix(cex):
+    import xarray as xr
+    from fractions import Fraction
+    from pandora import matching_cost
+    from pandora.criteria import validity_mask
+    x = cex['extra']; inp = cex['inputs']
+    H, W, ws, dmin, dmax, method, subpix = x['H'], x['W'], x['ws'], x['dmin'], x['dmax'], x['method'], x['subpix']
+    hh = ws // 2
+    li = np.array(inp['l'], np.float32).reshape(H, W); ri = np.array(inp['r'], np.float32).reshape(H, W)
+
+    def mk(im):
+        d = xr.Dataset({"im": (["row", "col"], im.copy())}, coords={"row": np.arange(H), "col": np.arange(W)})
+        d.attrs = {"valid_pixels": 0, "no_data_mask": 1, "crs": None, "transform": None, "no_data_img": -9999}
+        return d
+    L = mk(li); R = mk(ri)
+    L.coords["band_disp"] = ["min", "max"]
+    L["disparity"] = xr.DataArray(np.array([np.full((H, W), dmin), np.full((H, W), dmax)]), dims=["band_disp", "row", "col"]); L.attrs["disparity_source"] = [dmin, dmax]
+    try:
+        m = matching_cost.AbstractMatchingCost(**{"matching_cost_method": method, "window_size": ws, "subpix": subpix})
+        a = L["disparity"].sel(band_disp="min").data; b = L["disparity"].sel(band_disp="max").data
+        cv = m.allocate_cost_volume(L, (a, b), None); cv = validity_mask(L, R, cv); cv = m.compute_cost_volume(L, R, cv); m.cv_masked(L, R, cv, a, b)
+    except Exception as e:      # noqa
+        return {'violates': True, 'detail': 'matching cost chain (subpix %d) raised %r' % (subpix, e)}
+    got = cv["cost_volume"].data
+    ds = [Fraction(dmin) + Fraction(i, subpix) for i in range((dmax - dmin) * subpix + 1)]
+    if got.shape != (H, W, len(ds)):
+        return {'violates': True, 'detail': 'cost volume shape %s, expected %s' % (got.shape, (H, W, len(ds)))}
+    R64 = ri.astype(np.float64); L64 = li.astype(np.float64)
+
+    def rv(r, xx):
+        fl = xx.numerator // xx.denominator; f = float(xx - fl)
+        return R64[r, fl] if f == 0 else (1 - f) * R64[r, fl] + f * R64[r, fl + 1]
+    for r in range(H):
+        for c in range(W):
+            for k, d in enumerate(ds):
+                c2 = c + d; lo_ = c2 - hh; hi_ = c2 + hh
+                hi_need = hi_ if hi_.denominator == 1 else Fraction(hi_.numerator // hi_.denominator + 1)
+                g = not (r - hh < 0 or r + hh >= H or c - hh < 0 or c + hh >= W or lo_ < 0 or hi_need > W - 1)
+                if not g:
+                    exp = np.nan
+                else:
+                    win = [(dr, dc) for dr in range(-hh, hh + 1) for dc in range(-hh, hh + 1)]
+                    if method == 'sad':
+                        exp = sum(abs(L64[r + dr, c + dc] - rv(r + dr, c2 + dc)) for dr, dc in win)
+                    elif method == 'ssd':
+                        exp = sum((L64[r + dr, c + dc] - rv(r + dr, c2 + dc)) ** 2 for dr, dc in win)
+                    else:
+                        exp = sum((L64[r + dr, c + dc] > L64[r, c]) != (rv(r + dr, c2 + dc) > rv(r, c2)) for dr, dc in win)
+                g_ = float(got[r, c, k])
+                if (exp != exp) != (g_ != g_) or (exp == exp and g_ != float(np.float32(exp))):
+                    return {'violates': True, 'detail': 'cost[%d,%d] at disparity %s is %r, the measure on the interpolated right image gives %r (left %s, right %s)' %
+                            (r, c, float(d), g_, float(exp), li.tolist(), ri.tolist())}
+    return {'violates': False, 'detail': 'sub-pixel cost volume equals the reference'}
+
+
 def _np_oracle(L, R, method, ws, dmin, dmax, mL, mR, grids=None, lcodes=(0, 1), rcodes=(0, 1)):
     H, W = L.shape; h = ws // 2; ds = list(range(dmin, dmax + 1))
     out = np.full((H, W, len(ds)), np.nan, dtype=np.float32)
@@ -186,6 +315,8 @@ def replay(cex):
     import xarray as xr
     from pandora import matching_cost, disparity
     from pandora.criteria import validity_mask
+    if cex['extra'].get('subpix_volume'):
+        return replay_subpix(cex)
     x = cex['extra']; inp = cex['inputs']
     H, W, ws, dmin, dmax, method = x['H'], x['W'], x['ws'], x['dmin'], x['dmax'], x['method']
     bands = x.get('bands'); band = x.get('band'); col0 = x.get('col0', 0)
